@@ -18,6 +18,7 @@ const rule = "cases = (expression, input bytes, input format, output format, eva
 	"oracle: no recovered panic, no watchdog hit (20 s, re-confirmed at 120 s). non-trivial = the expression parsed (got past lexer and parser) or the decoder yielded a result or failed after byte 16; distinct by (expr, input, formats)"
 
 func TestMain(m *testing.M) {
+	hx.TraceCurrent = true
 	hx.Main(m, "C11", rule,
 		"repeat counts and indent parameters in generated expressions are capped (resource exhaustion is not the crash class the property names)",
 		"load*/env operators are generated with literal arguments only; they fail with an error on missing files",
@@ -39,6 +40,11 @@ type Case struct {
 }
 
 func check(c Case) hx.Verdict {
+	if (c.In == "yaml" || c.In == "") && !c.NullIn && strings.Contains(c.Input, "*") && hx.YAMLCyclic(c.Input) {
+		// a self-referential alias can recurse without bound, which no recover()
+		// can catch: judge it in a separate, memory-limited process
+		return checkBinLimited(c)
+	}
 	o := hx.Run(c.Expr, c.Input, hx.Opts{In: c.In, Out: c.Out, EvalAll: c.EvalAll, NullIn: c.NullIn})
 	if o.Timeout {
 		// confirm with a much longer limit before calling it a hang
@@ -77,6 +83,7 @@ func genExprCase(t *rapid.T) Case {
 	if m := rapid.IntRange(0, 9).Draw(t, "nmut"); m >= 7 {
 		e = gen.Mutate(t, e, m-6)
 	}
+	e = gen.BoundIndices(e)
 	c := Case{Expr: e, In: "yaml", Out: "yaml", Gen: "grammar"}
 	switch rapid.IntRange(0, 9).Draw(t, "ink") {
 	case 0:
@@ -127,12 +134,22 @@ func genBytesCase(t *rapid.T) Case {
 	if rapid.Bool().Draw(t, "valid_expr") {
 		c.Expr = rapid.SampledFrom(smallExprs).Draw(t, "sexpr")
 	}
+	c.Expr = gen.BoundIndices(c.Expr)
 	return c
 }
 
 // BinCase replays a sample through the real binary: a panic there is exit 2 with a goroutine dump.
 type BinCase struct {
-	C Case `json:"c"`
+	C     Case `json:"c"`
+	Limit bool `json:"limit,omitempty"`
+}
+
+func checkBinLimited(c Case) hx.Verdict {
+	v := checkBin(BinCase{C: c, Limit: true})
+	if v.Status == hx.Violates {
+		v.Sig = "input-shape:cyclic-alias"
+	}
+	return v.WithLabels("cyclic_alias_input")
 }
 
 func checkBin(b BinCase) hx.Verdict {
@@ -154,9 +171,27 @@ func checkBin(b BinCase) hx.Verdict {
 	if strings.ContainsRune(c.Expr, 0) {
 		return hx.Disc("nul_in_argv")
 	}
-	r := hx.RunBin(dir, args, stdin, nil, 60*time.Second)
+	var r hx.BinResult
+	if b.Limit {
+		if hx.YqPath() == "" {
+			return hx.Unspec("no_binary")
+		}
+		r = hx.RunCmd(dir, "/bin/sh", append([]string{"-c", `ulimit -v 3000000; exec "$0" "$@"`, hx.YqPath()}, args...), stdin, nil, 120*time.Second)
+		if r.Timeout {
+			return hx.Bad("hang", "no result after 120 s (binary): args=%q stdin=%q", args, c.Input)
+		}
+	} else {
+		r = hx.RunBin(dir, args, stdin, nil, 60*time.Second)
+	}
 	if r.Timeout {
 		return hx.Unspec("slow_binary")
+	}
+	if strings.Contains(r.Stderr, "fatal error:") {
+		sig := "fatal"
+		if b.Limit && hx.YAMLCyclic(c.Input) {
+			sig = "input-shape:cyclic-alias"
+		}
+		return hx.Bad(sig, "binary died with a fatal error (exit %d): args=%q stdin=%q stderr=%.300s", r.Exit, args, c.Input, r.Stderr)
 	}
 	if r.Exit == 2 && (strings.Contains(r.Stderr, "goroutine ") || strings.Contains(r.Stderr, "panic:")) || r.Signal != "" {
 		site := "binary"
@@ -192,11 +227,11 @@ func TestProp(t *testing.T) {
 		subs = append(subs, hx.NewSub("binary", 250, 1500, func(t *rapid.T) BinCase {
 			switch rapid.IntRange(0, 2).Draw(t, "g") {
 			case 0:
-				return BinCase{genExprCase(t)}
+				return BinCase{C: genExprCase(t)}
 			case 1:
-				return BinCase{genInputCase(t)}
+				return BinCase{C: genInputCase(t)}
 			}
-			return BinCase{genBytesCase(t)}
+			return BinCase{C: genBytesCase(t)}
 		}, checkBin))
 	}
 	hx.RunProperty(t, subs...)
